@@ -1,6 +1,499 @@
-//! C17 — not built yet.
+//! C17 — externally stored state is authenticated against tampering, swapping and replay.
+//!
+//! Group `C17Hmac` (model `hmac`): the real `compute_shared_hmac`, `ExternalPersistHelper::{client_hmac,
+//! server_hmac, new_nonce + check_hmac}` of vls-core and the real lightning-storage-server
+//! `append_hmac_to_value`/`prepare_value_for_put` and `remove_and_check_hmac`/`process_value_from_get`
+//! (compiled from the repository's source through `translate/x_lss.py` → `c17_lss_gen.rs`) against the
+//! Lean encoders + executable HMAC-SHA256, byte for byte (final tags and stored values).
+//!
+//! Each case takes a base record list (or a base stored value) and a structural mutation set: single-bit
+//! flips in key/version/value/nonce/secret, key swap, version swap, truncation, record merge/split,
+//! boundary shifts between adjacent fields and records, reordering, replay under another nonce.
+//!
+//! Monitor: inside a case, two *different* inputs — (nonce, record list) for the shared tag, (key, version,
+//! value) for a stored value — that authenticate under the same secret and tag are a violation.  If the two
+//! inputs have byte-identical unframed concatenations the kind is `c17-unframed-concatenation-collision`
+//! (finding F10); any other coincidence (a tag that ignores the version, the nonce, a key, the order ...)
+//! is `c17-tag-collision`.
 use crate::common::*;
+use lightning_signer::lightning::sign::EntropySource;
+use lightning_signer::persist::{compute_shared_hmac, ExternalPersistHelper, Mutations};
+use std::collections::BTreeMap;
+
+#[path = "c17_lss_gen.rs"]
+mod lss;
+use lss::util as lssu;
+use lss::Value;
+
+type Rec = (Vec<u8>, u64, Vec<u8>);
+
+fn hexs(b: &[u8]) -> String {
+    if b.is_empty() { "-".into() } else { hex::encode(b) }
+}
+fn unhex(s: &str) -> Vec<u8> {
+    if s == "-" { vec![] } else { hex::decode(s).expect("hex") }
+}
+
+struct FixedEntropy([u8; 32]);
+impl EntropySource for FixedEntropy {
+    fn get_secure_random_bytes(&self) -> [u8; 32] {
+        self.0
+    }
+}
+
+fn parse_recs(t: &[&str]) -> Vec<Rec> {
+    let mut v = Vec::new();
+    let mut i = 0;
+    while i + 3 <= t.len() {
+        v.push((unhex(t[i]), t[i + 1].parse().expect("version"), unhex(t[i + 2])));
+        i += 3;
+    }
+    v
+}
+
+fn show_recs(rs: &[Rec]) -> String {
+    rs.iter().map(|(k, v, x)| format!(" {} {} {}", hexs(k), v, hexs(x))).collect()
+}
+
+fn to_mutations(rs: &[Rec]) -> Option<Mutations> {
+    let mut m = Mutations::new();
+    for (k, v, x) in rs {
+        m.add(String::from_utf8(k.clone()).ok()?, *v, x.clone());
+    }
+    Some(m)
+}
+
+fn arr32(b: &[u8]) -> Option<[u8; 32]> {
+    if b.len() == 32 { let mut a = [0u8; 32]; a.copy_from_slice(b); Some(a) } else { None }
+}
+
+/// the unframed concatenation, written independently of both the Rust code under test and the Lean model
+fn concat_recs(rs: &[Rec]) -> Vec<u8> {
+    let mut out = Vec::new();
+    for (k, v, x) in rs {
+        out.extend_from_slice(k);
+        out.extend_from_slice(&v.to_be_bytes());
+        out.extend_from_slice(x);
+    }
+    out
+}
+
+pub struct C17Hmac;
+
+#[derive(Default)]
+struct Monitor {
+    /// (secret, tag) → first input seen: (nonce, records, op index)
+    shared: BTreeMap<(Vec<u8>, Vec<u8>), (Vec<u8>, Vec<Rec>, usize)>,
+    /// (secret, tag) → first accepted triple
+    value: BTreeMap<(Vec<u8>, Vec<u8>), (Rec, usize)>,
+}
+
+impl Monitor {
+    fn shared_input(&mut self, at: usize, secret: &[u8], nonce: &[u8], rs: &[Rec], tag: &[u8], viol: &mut Vec<Violation>) {
+        let key = (secret.to_vec(), tag.to_vec());
+        match self.shared.get(&key) {
+            None => { self.shared.insert(key, (nonce.to_vec(), rs.to_vec(), at)); }
+            Some((n0, r0, at0)) => {
+                if n0.as_slice() != nonce || r0.as_slice() != rs {
+                    let mut a = n0.clone(); a.extend(concat_recs(r0));
+                    let mut b = nonce.to_vec(); b.extend(concat_recs(rs));
+                    let kind = if a == b { "c17-unframed-concatenation-collision" } else { "c17-tag-collision" };
+                    viol.push(Violation {
+                        kind: kind.into(),
+                        desc: format!("same tag {} for nonce {} records[{}] (op {}) and nonce {} records[{}] (op {})",
+                            hexs(tag), hexs(n0), show_recs(r0), at0, hexs(nonce), show_recs(rs), at),
+                        at,
+                    });
+                }
+            }
+        }
+    }
+    fn value_input(&mut self, at: usize, secret: &[u8], rec: &Rec, tag: &[u8], viol: &mut Vec<Violation>) {
+        let key = (secret.to_vec(), tag.to_vec());
+        match self.value.get(&key) {
+            None => { self.value.insert(key, (rec.clone(), at)); }
+            Some((r0, at0)) => {
+                if r0 != rec {
+                    let kind = if concat_recs(&[r0.clone()]) == concat_recs(&[rec.clone()]) {
+                        "c17-unframed-concatenation-collision"
+                    } else {
+                        "c17-tag-collision"
+                    };
+                    viol.push(Violation {
+                        kind: kind.into(),
+                        desc: format!("stored-value tag {} authenticates (key {}, version {}, value {}) (op {}) and (key {}, version {}, value {}) (op {})",
+                            hexs(tag), hexs(&r0.0), r0.1, hexs(&r0.2), at0, hexs(&rec.0), rec.1, hexs(&rec.2), at),
+                        at,
+                    });
+                }
+            }
+        }
+    }
+}
+
+fn exec_line(line: &str, i: usize, mon: &mut Monitor, co: &mut CaseOut) -> String {
+    let t: Vec<&str> = line.split(' ').filter(|s| !s.is_empty()).collect();
+    match t[0] {
+        "shared" => {
+            let (s, n, rs) = (unhex(t[1]), unhex(t[2]), parse_recs(&t[3..]));
+            let m = match to_mutations(&rs) { Some(m) => m, None => return "bad-key".into() };
+            let tag = compute_shared_hmac(&s, &n, &m);
+            mon.shared_input(i, &s, &n, &rs, &tag, &mut co.violations);
+            hexs(&tag)
+        }
+        "client" | "server" => {
+            let (s, rs) = (unhex(t[1]), parse_recs(&t[2..]));
+            let m = match to_mutations(&rs) { Some(m) => m, None => return "bad-key".into() };
+            let s32 = match arr32(&s) { Some(a) => a, None => return "bad-secret".into() };
+            let h = ExternalPersistHelper::new(s32);
+            let (tag, nonce) = if t[0] == "client" { (h.client_hmac(&m), vec![1u8]) } else { (h.server_hmac(&m), vec![2u8]) };
+            mon.shared_input(i, &s, &nonce, &rs, &tag, &mut co.violations);
+            hexs(&tag)
+        }
+        "check" => {
+            let (s, n, tag, rs) = (unhex(t[1]), unhex(t[2]), unhex(t[3]), parse_recs(&t[4..]));
+            let m = match to_mutations(&rs) { Some(m) => m, None => return "bad-key".into() };
+            let (s32, n32) = match (arr32(&s), arr32(&n)) { (Some(a), Some(b)) => (a, b), _ => return "bad-secret".into() };
+            let mut h = ExternalPersistHelper::new(s32);
+            let got = h.new_nonce(&FixedEntropy(n32));
+            assert_eq!(got, n32);
+            let ok = h.check_hmac(&m, tag.clone());
+            if ok {
+                co.tags.insert("check:true".into());
+                mon.shared_input(i, &s, &n, &rs, &tag, &mut co.violations);
+            } else {
+                co.tags.insert("check:false".into());
+            }
+            ok.to_string()
+        }
+        // stored value, HMAC layer only: append_hmac_to_value (through the real prepare_value_for_put, whose
+        // ChaCha20 layer is removed again with the real crypt_value) / remove_and_check_hmac
+        "prep" => {
+            let (s, k, v, x) = (unhex(t[1]), unhex(t[2]), t[3].parse::<u64>().expect("version"), unhex(t[4]));
+            let ks = match String::from_utf8(k.clone()) { Ok(s) => s, Err(_) => return "bad-key".into() };
+            let mut val = Value { version: v as i64, value: x.clone() };
+            lssu::prepare_value_for_put(&s, &ks, &mut val);
+            lssu::crypt_value(&s, &ks, v as i64, &mut val.value);
+            if val.value.len() >= 32 {
+                let tag = val.value[val.value.len() - 32..].to_vec();
+                mon.value_input(i, &s, &(k, v, x), &tag, &mut co.violations);
+            }
+            hexs(&val.value)
+        }
+        "proc" => {
+            let (s, k, v, st) = (unhex(t[1]), unhex(t[2]), t[3].parse::<u64>().expect("version"), unhex(t[4]));
+            let ks = match String::from_utf8(k.clone()) { Ok(s) => s, Err(_) => return "bad-key".into() };
+            let mut value = st.clone();
+            match lssu::remove_and_check_hmac(&s, &ks, v as i64, &mut value) {
+                Ok(()) => {
+                    co.tags.insert("proc:ok".into());
+                    let tag = st[st.len() - 32..].to_vec();
+                    mon.value_input(i, &s, &(k, v, value.clone()), &tag, &mut co.violations);
+                    format!("ok {}", hexs(&value))
+                }
+                Err(()) => { co.tags.insert("proc:err".into()); "err".into() }
+            }
+        }
+        // implementation only: the full default path with the ChaCha20 layer.  `procx S K V X K' V' MUT`:
+        // write (K,V,X) with prepare_value_for_put, apply byte mutation MUT (`-` none, `f<i>` flip bit 0 of byte i,
+        // `t<n>` truncate n bytes, `p<hex>` prepend bytes) to the stored ciphertext, read it back as (K',V')
+        "procx" => {
+            let (s, k, v, x) = (unhex(t[1]), unhex(t[2]), t[3].parse::<u64>().unwrap(), unhex(t[4]));
+            let (k2, v2) = (unhex(t[5]), t[6].parse::<u64>().unwrap());
+            let (ks, ks2) = match (String::from_utf8(k.clone()), String::from_utf8(k2.clone())) {
+                (Ok(a), Ok(b)) => (a, b), _ => return "bad-key".into() };
+            let mut val = Value { version: v as i64, value: x.clone() };
+            lssu::prepare_value_for_put(&s, &ks, &mut val);
+            let mut stored = val.value.clone();
+            let m = t[7];
+            if let Some(i) = m.strip_prefix('f') { let i: usize = i.parse().unwrap(); if !stored.is_empty() { let j = i % stored.len(); stored[j] ^= 1; } }
+            else if let Some(n) = m.strip_prefix('t') { let n: usize = n.parse().unwrap(); let l = stored.len().saturating_sub(n); stored.truncate(l); }
+            else if let Some(h) = m.strip_prefix('p') { let mut p = unhex(h); p.extend(stored); stored = p; }
+            let mut back = Value { version: v2 as i64, value: stored };
+            match lssu::process_value_from_get(&s, &ks2, &mut back) {
+                Ok(()) => {
+                    if (k2.clone(), v2, back.value.clone()) != (k.clone(), v, x.clone()) {
+                        co.violations.push(Violation {
+                            kind: "c17-value-accepted-not-as-written".into(),
+                            desc: format!("written (key {}, version {}, value {}), mutation {}, accepted as (key {}, version {}, value {})",
+                                hexs(&k), v, hexs(&x), m, hexs(&k2), v2, hexs(&back.value)),
+                            at: i,
+                        });
+                    }
+                    co.tags.insert("procx:ok".into());
+                    format!("ok {}", hexs(&back.value))
+                }
+                Err(()) => { co.tags.insert("procx:err".into()); "err".into() }
+            }
+        }
+        _ => "bad-op".into(),
+    }
+}
+
+fn ascii_key(rng: &mut Rng) -> Vec<u8> {
+    match rng.below(6) {
+        0 => b"k1".to_vec(),
+        1 => b"k2".to_vec(),
+        2 => b"_WRITER".to_vec(),
+        3 => format!("node/entry/{}", hex::encode(rng.bytes(4))).into_bytes(),
+        4 => format!("channel/{}", hex::encode(rng.bytes(2))).into_bytes(),
+        _ => { let n = rng.range(1, 6) as usize; (0..n).map(|_| b'a' + rng.below(26) as u8).collect() }
+    }
+}
+
+fn rand_version(rng: &mut Rng) -> u64 {
+    match rng.below(8) {
+        0 => 0,
+        1 => u64::MAX,
+        2 => 1u64 << 63,
+        3 => 0x6b31_0000_0000_0001, // bytes that look like a key
+        4 => rng.next(),
+        _ => rng.below(300),
+    }
+}
+
+fn rand_value(rng: &mut Rng) -> Vec<u8> {
+    match rng.below(6) {
+        0 => vec![],
+        1 => b"v1".to_vec(),
+        2 => vec![0u8; rng.range(1, 9) as usize],
+        _ => { let n = rng.below(40) as usize; rng.bytes(n) }
+    }
+}
+
+fn be(v: u64) -> Vec<u8> { v.to_be_bytes().to_vec() }
+
+/// structural mutations of a record list; every result keeps keys ASCII
+fn mutate_recs(rng: &mut Rng, base: &[Rec]) -> Vec<(String, Vec<Rec>)> {
+    let mut out: Vec<(String, Vec<Rec>)> = Vec::new();
+    let n = base.len();
+    if n == 0 { return out; }
+    let i = rng.below(n as u64) as usize;
+    let j = (i + 1) % n;
+    // bit flips
+    { let mut r = base.to_vec(); if !r[i].2.is_empty() { let p = rng.below(r[i].2.len() as u64) as usize; r[i].2[p] ^= 1 << rng.below(8); out.push(("flip-value".into(), r)); } }
+    { let mut r = base.to_vec(); r[i].1 ^= 1 << rng.below(64); out.push(("flip-version".into(), r)); }
+    { let mut r = base.to_vec(); if !r[i].0.is_empty() { let p = rng.below(r[i].0.len() as u64) as usize; r[i].0[p] ^= 1 << rng.below(3); if r[i].0[p] < 0x80 { out.push(("flip-key".into(), r)); } } }
+    // swaps
+    if n > 1 {
+        { let mut r = base.to_vec(); let k = r[i].0.clone(); r[i].0 = r[j].0.clone(); r[j].0 = k; out.push(("swap-keys".into(), r)); }
+        { let mut r = base.to_vec(); let v = r[i].1; r[i].1 = r[j].1; r[j].1 = v; out.push(("swap-versions".into(), r)); }
+        { let mut r = base.to_vec(); let v = r[i].2.clone(); r[i].2 = r[j].2.clone(); r[j].2 = v; out.push(("swap-values".into(), r)); }
+        { let mut r = base.to_vec(); r.swap(i, j); out.push(("reorder".into(), r)); }
+        { let mut r = base.to_vec(); r.reverse(); out.push(("reverse".into(), r)); }
+    }
+    // truncation
+    { let mut r = base.to_vec(); r.pop(); out.push(("drop-last-record".into(), r)); }
+    { let mut r = base.to_vec(); if r[i].2.pop().is_some() { out.push(("truncate-value".into(), r)); } }
+    { let mut r = base.to_vec(); let d = r[i].clone(); r.insert(i, d); out.push(("duplicate-record".into(), r)); }
+    // merge record i+1 into the value of record i (F10)
+    if n > 1 && i + 1 < n {
+        let mut r = base.to_vec();
+        let nx = r.remove(i + 1);
+        r[i].2.extend(nx.0); r[i].2.extend(be(nx.1)); r[i].2.extend(nx.2);
+        out.push(("merge".into(), r));
+    }
+    // split the value of record i into a record of its own when it is long enough and its head is ASCII
+    {
+        let x = &base[i].2;
+        if x.len() >= 9 {
+            let cut = rng.below((x.len() - 8) as u64) as usize; // value' = x[..cut], key2 = 1 byte?, ...
+            // new record: key2 = x[cut..cut+kl], version = next 8 bytes, value = rest
+            let kl = rng.below((x.len() - 8 - cut) as u64 + 1) as usize;
+            let key2 = x[cut..cut + kl].to_vec();
+            if key2.iter().all(|b| *b < 0x80) {
+                let mut vb = [0u8; 8]; vb.copy_from_slice(&x[cut + kl..cut + kl + 8]);
+                let mut r = base.to_vec();
+                r[i].2 = x[..cut].to_vec();
+                r.insert(i + 1, (key2, u64::from_be_bytes(vb), x[cut + kl + 8..].to_vec()));
+                out.push(("split".into(), r));
+            }
+        }
+    }
+    // boundary shift: last byte of a value becomes the first byte of the next key
+    if n > 1 && i + 1 < n {
+        let mut r = base.to_vec();
+        if let Some(b) = r[i].2.pop() { if b < 0x80 { r[i + 1].0.insert(0, b); out.push(("shift-value-to-next-key".into(), r)); } }
+    }
+    // field shift inside one record: last key byte → version → value
+    {
+        let mut r = base.to_vec();
+        if let Some(b) = r[i].0.pop() {
+            let mut bytes = vec![b]; bytes.extend(be(r[i].1));
+            let mut vb = [0u8; 8]; vb.copy_from_slice(&bytes[..8]);
+            r[i].1 = u64::from_be_bytes(vb);
+            r[i].2.insert(0, bytes[8]);
+            out.push(("shift-key-to-version".into(), r));
+        }
+    }
+    // field shift the other way: first value byte → version → key (when it stays ASCII)
+    {
+        let mut r = base.to_vec();
+        if !r[i].2.is_empty() {
+            let mut bytes = be(r[i].1); bytes.push(r[i].2.remove(0));
+            if bytes[0] < 0x80 {
+                r[i].0.push(bytes[0]);
+                let mut vb = [0u8; 8]; vb.copy_from_slice(&bytes[1..9]);
+                r[i].1 = u64::from_be_bytes(vb);
+                out.push(("shift-version-to-key".into(), r));
+            }
+        }
+    }
+    out
+}
+
+impl Group for C17Hmac {
+    fn property(&self) -> &'static str { "C17" }
+    fn model(&self) -> Option<&'static str> { Some("hmac") }
+    fn rule(&self) -> &'static str {
+        "per case: a random secret/nonce and 1..4 records (repo-style ASCII keys, versions 0/small/2^63/u64::MAX/key-like \
+         bytes, values 0..40 bytes) or one stored value, with the full structural mutation set (bit flips of key, version, \
+         value, nonce, secret; key/version/value swaps; reorder; truncations; duplicate; record merge/split; boundary and \
+         field shifts; replay under another nonce; client vs server tag); tags and stored values compared byte for byte \
+         with the Lean encoders + HMAC-SHA256; non-trivial = the case contains an accepted and a rejected authentication"
+    }
+    fn budget(&self, tier: Tier) -> usize { if tier == Tier::Quick { 3000 } else { 40_000 } }
+    fn corpus(&self) -> Vec<Vec<String>> {
+        let s = "07".repeat(32);
+        let n = "09".repeat(32);
+        let c = |v: Vec<String>| v;
+        vec![
+            // F10 witness of DESIGN §3 C17 / notes/recon/exp_kv.rs: merge of two records
+            c(vec![
+                format!("shared {} {} 6b31 1 7631 6b32 2 7632", s, n),
+                format!("shared {} {} 6b31 1 76316b3200000000000000027632", s, n),
+            ]),
+            // the repository's own test vector (persist/mod.rs hmac_test)
+            c(vec![
+                format!("client {} 666f6f 0 01 626172 0 02 62617a 0 03", "00".repeat(32)),
+                format!("server {} 666f6f 0 01 626172 0 02 62617a 0 03", "00".repeat(32)),
+            ]),
+            // stored value: field shift key → version → value
+            c(vec![
+                format!("prep {} 6b31 1 7631", "03".repeat(32)),
+                format!("prep {} 6b 3530822107858468864 017631", "03".repeat(32)),
+            ]),
+            // LSS unit test scenario
+            c(vec![
+                format!("prep {} 78 123 010203", "0b".repeat(32)),
+                format!("procx {} 78 123 010203 78 123 -", "0b".repeat(32)),
+                format!("procx {} 78 123 010203 78 122 -", "0b".repeat(32)),
+                format!("procx {} 78 123 010203 7831 123 -", "0b".repeat(32)),
+                format!("procx {} 78 123 010203 78 123 f0", "0b".repeat(32)),
+            ]),
+        ]
+    }
+    fn model_line(&self, op: &str) -> Option<String> {
+        if op.starts_with("procx ") { None } else { Some(op.to_string()) }
+    }
+    fn gen_case(&self, rng: &mut Rng, _tier: Tier) -> Vec<String> {
+        let secret = rng.bytes(32);
+        let s = hexs(&secret);
+        let mut ops = Vec::new();
+        if rng.chance(3, 5) {
+            // shared HMAC family
+            let nonce = rng.bytes(32);
+            let n = hexs(&nonce);
+            let cnt = rng.range(1, 4) as usize;
+            let mut base: Vec<Rec> = (0..cnt).map(|_| (ascii_key(rng), rand_version(rng), rand_value(rng))).collect();
+            if rng.chance(1, 3) && cnt > 1 { base[1].2 = { let mut v = rand_value(rng); v.extend(rng.bytes(10)); v }; base[0].2 = { let mut v = b"abc".to_vec(); v.extend(be(rng.below(5))); v.extend(rng.bytes(3)); v }; }
+            let m = to_mutations(&base).unwrap();
+            let tag = compute_shared_hmac(&secret, &nonce, &m).to_vec();
+            ops.push(format!("shared {} {}{}", s, n, show_recs(&base)));
+            ops.push(format!("check {} {} {}{}", s, n, hexs(&tag), show_recs(&base)));
+            ops.push(format!("client {}{}", s, show_recs(&base)));
+            ops.push(format!("server {}{}", s, show_recs(&base)));
+            // replay under another nonce / other secret / flipped tag
+            let mut n2 = nonce.clone(); n2[rng.below(32) as usize] ^= 1 << rng.below(8);
+            ops.push(format!("check {} {} {}{}", s, hexs(&n2), hexs(&tag), show_recs(&base)));
+            ops.push(format!("shared {} {}{}", s, hexs(&n2), show_recs(&base)));
+            let mut s2 = secret.clone(); s2[rng.below(32) as usize] ^= 1 << rng.below(8);
+            ops.push(format!("check {} {} {}{}", hexs(&s2), n, hexs(&tag), show_recs(&base)));
+            let mut t2 = tag.clone(); t2[rng.below(32) as usize] ^= 1 << rng.below(8);
+            ops.push(format!("check {} {} {}{}", s, n, hexs(&t2), show_recs(&base)));
+            ops.push(format!("check {} {} {}{}", s, n, hexs(&tag[..31]), show_recs(&base)));
+            // client tag replayed as a get response whose nonce begins with 0x01 (one-byte vs 32-byte nonce)
+            if rng.chance(1, 4) {
+                let mut n3 = nonce.clone(); n3[0] = 1;
+                ops.push(format!("shared {} {}{}", s, hexs(&n3), show_recs(&base)));
+                ops.push(format!("shared {} 01 {} 0 -{}", s, hexs(&n3[1..23].iter().map(|b| b & 0x7f).collect::<Vec<u8>>()), show_recs(&base)));
+            }
+            for (_name, r) in mutate_recs(rng, &base) {
+                ops.push(format!("shared {} {}{}", s, n, show_recs(&r)));
+                if rng.chance(1, 2) {
+                    ops.push(format!("check {} {} {}{}", s, n, hexs(&tag), show_recs(&r)));
+                }
+            }
+        } else {
+            // stored value family
+            let (k, v, x) = (ascii_key(rng), rand_version(rng), rand_value(rng));
+            ops.push(format!("prep {} {} {} {}", s, hexs(&k), v, hexs(&x)));
+            // what the real code stores (HMAC layer)
+            let ks = String::from_utf8(k.clone()).unwrap();
+            let mut val = Value { version: v as i64, value: x.clone() };
+            lssu::append_hmac_to_value(&secret, &ks, v as i64, &mut val.value);
+            let stored = val.value.clone();
+            ops.push(format!("proc {} {} {} {}", s, hexs(&k), v, hexs(&stored)));
+            ops.push(format!("procx {} {} {} {} {} {} -", s, hexs(&k), v, hexs(&x), hexs(&k), v));
+            // key / version changes
+            let mut k2 = k.clone(); if !k2.is_empty() { let p = rng.below(k2.len() as u64) as usize; k2[p] ^= 1 << rng.below(3); }
+            if k2.iter().all(|b| *b < 0x80) {
+                ops.push(format!("proc {} {} {} {}", s, hexs(&k2), v, hexs(&stored)));
+                ops.push(format!("procx {} {} {} {} {} {} -", s, hexs(&k), v, hexs(&x), hexs(&k2), v));
+            }
+            let v2 = v ^ (1 << rng.below(64));
+            ops.push(format!("proc {} {} {} {}", s, hexs(&k), v2, hexs(&stored)));
+            ops.push(format!("procx {} {} {} {} {} {} -", s, hexs(&k), v, hexs(&x), hexs(&k), v2));
+            ops.push(format!("proc {} {} {} {}", s, hexs(&k), v.wrapping_sub(1), hexs(&stored)));
+            // content changes
+            let mut st2 = stored.clone(); let p = rng.below(st2.len() as u64) as usize; st2[p] ^= 1 << rng.below(8);
+            ops.push(format!("proc {} {} {} {}", s, hexs(&k), v, hexs(&st2)));
+            ops.push(format!("procx {} {} {} {} {} {} f{}", s, hexs(&k), v, hexs(&x), hexs(&k), v, p));
+            ops.push(format!("proc {} {} {} {}", s, hexs(&k), v, hexs(&stored[..stored.len() - 1])));
+            ops.push(format!("proc {} {} {} {}", s, hexs(&k), v, hexs(&stored[1..])));
+            ops.push(format!("proc {} {} {} {}", s, hexs(&k), v, hexs(&stored[..rng.below(33) as usize])));
+            ops.push(format!("procx {} {} {} {} {} {} t{}", s, hexs(&k), v, hexs(&x), hexs(&k), v, rng.range(1, 40)));
+            // field shifts (F10 for stored values): key loses its last byte
+            if !k.is_empty() {
+                let mut bytes = vec![*k.last().unwrap()]; bytes.extend(be(v));
+                let mut vb = [0u8; 8]; vb.copy_from_slice(&bytes[..8]);
+                let mut st3 = vec![bytes[8]]; st3.extend(&stored);
+                ops.push(format!("proc {} {} {} {}", s, hexs(&k[..k.len() - 1]), u64::from_be_bytes(vb), hexs(&st3)));
+                ops.push(format!("procx {} {} {} {} {} {} p{}", s, hexs(&k), v, hexs(&x), hexs(&k[..k.len() - 1]), u64::from_be_bytes(vb), hexs(&[bytes[8]])));
+            }
+            // the other way: key gains the first version byte
+            if !x.is_empty() && be(v)[0] < 0x80 {
+                let mut bytes = be(v); bytes.push(x[0]);
+                let mut k3 = k.clone(); k3.push(bytes[0]);
+                let mut vb = [0u8; 8]; vb.copy_from_slice(&bytes[1..9]);
+                ops.push(format!("proc {} {} {} {}", s, hexs(&k3), u64::from_be_bytes(vb), hexs(&stored[1..])));
+            }
+            // another record's stored value under this key (swap)
+            let (kb, vb2, xb) = (ascii_key(rng), rand_version(rng), rand_value(rng));
+            ops.push(format!("prep {} {} {} {}", s, hexs(&kb), vb2, hexs(&xb)));
+            let mut other = Value { version: vb2 as i64, value: xb.clone() };
+            lssu::append_hmac_to_value(&secret, &String::from_utf8(kb.clone()).unwrap(), vb2 as i64, &mut other.value);
+            if (kb.clone(), vb2) != (k.clone(), v) {
+                ops.push(format!("proc {} {} {} {}", s, hexs(&k), v, hexs(&other.value)));
+            }
+        }
+        ops
+    }
+    fn exec_case(&self, ops: &[String]) -> CaseOut {
+        let mut co = CaseOut::default();
+        let mut mon = Monitor::default();
+        for (i, line) in ops.iter().enumerate() {
+            let o = exec_line(line, i, &mut mon, &mut co);
+            co.tags.insert(format!("op:{}", line.split(' ').next().unwrap_or("")));
+            co.out.push(o);
+        }
+        let acc = co.tags.contains("check:true") || co.tags.contains("proc:ok") || co.tags.contains("procx:ok");
+        let rej = co.tags.contains("check:false") || co.tags.contains("proc:err") || co.tags.contains("procx:err");
+        co.nontrivial = acc && rej;
+        co
+    }
+}
 
 pub fn groups() -> Vec<Box<dyn Group>> {
-    vec![]
+    vec![Box::new(C17Hmac)]
 }
